@@ -324,19 +324,18 @@ class Memory():
     def write(self, memory, addr, data, flush_queue=False, progress_cb=None):
         """Write the specified data to the given memory at the given address"""
         wreq = _WriteRequest(memory, addr, data, self.cf, progress_cb)
-        if memory.id not in self._write_requests:
-            self._write_requests[memory.id] = []
 
         # Workaround until we secure the uplink and change messages for
         # mems to non-blocking
-        self._write_requests_lock.acquire()
-        if flush_queue:
-            self._write_requests[memory.id] = self._write_requests[
-                memory.id][:1]
-        self._write_requests[memory.id].append(wreq)
-        if len(self._write_requests[memory.id]) == 1:
-            wreq.start()
-        self._write_requests_lock.release()
+        with self._write_requests_lock:
+            if memory.id not in self._write_requests:
+                self._write_requests[memory.id] = []
+            if flush_queue:
+                self._write_requests[memory.id] = self._write_requests[
+                    memory.id][:1]
+            self._write_requests[memory.id].append(wreq)
+            if len(self._write_requests[memory.id]) == 1:
+                wreq.start()
 
         return True
 
@@ -563,40 +562,39 @@ class Memory():
         id = cmd
         (addr, status) = struct.unpack('<IB', payload[0:5])
         logger.debug('WRITE: Mem={}, addr=0x{:X}, status=0x{}'.format(id, addr, status))
-        # Find the write request
-        if id in self._write_requests:
-            self._write_requests_lock.acquire()
-            do_call_sucess_cb = False
-            do_call_fail_cb = False
-            wreq = self._write_requests[id][0]
-            if status == 0:
-                if wreq.write_done(addr):
-                    # self._write_requests.pop(id, None)
-                    # Remove the first item
+        do_call_sucess_cb = False
+        do_call_fail_cb = False
+        with self._write_requests_lock:
+            # Find the write request. There is none if this is a duplicated or late
+            # reply to a request that has already been finished.
+            if id in self._write_requests and len(self._write_requests[id]) > 0:
+                wreq = self._write_requests[id][0]
+                if status == 0:
+                    if wreq.write_done(addr):
+                        # self._write_requests.pop(id, None)
+                        # Remove the first item
+                        self._write_requests[id].pop(0)
+                        do_call_sucess_cb = True
+
+                        # Get a new one to start (if there are any)
+                        if len(self._write_requests[id]) > 0:
+                            self._write_requests[id][0].start()
+                else:
+                    logger.debug('Status {}: write failed.'.format(status))
+                    # Remove from queue
                     self._write_requests[id].pop(0)
-                    do_call_sucess_cb = True
+                    do_call_fail_cb = True
 
                     # Get a new one to start (if there are any)
                     if len(self._write_requests[id]) > 0:
                         self._write_requests[id][0].start()
-            else:
-                logger.debug('Status {}: write failed.'.format(status))
-                # Remove from queue
-                self._write_requests[id].pop(0)
-                do_call_fail_cb = True
 
-                # Get a new one to start (if there are any)
-                if len(self._write_requests[id]) > 0:
-                    self._write_requests[id][0].start()
-
-            self._write_requests_lock.release()
-
-            # Call callbacks after the lock has been released to alow for new writes
-            # to be initiated from the callback.
-            if do_call_sucess_cb:
-                self.mem_write_cb.call(wreq.mem, wreq.addr)
-            if do_call_fail_cb:
-                self.mem_write_failed_cb.call(wreq.mem, wreq.addr)
+        # Call callbacks after the lock has been released to alow for new writes
+        # to be initiated from the callback.
+        if do_call_sucess_cb:
+            self.mem_write_cb.call(wreq.mem, wreq.addr)
+        if do_call_fail_cb:
+            self.mem_write_failed_cb.call(wreq.mem, wreq.addr)
 
     def _handle_chan_read(self, cmd, payload):
         id = cmd
